@@ -4,5 +4,6 @@ CONSTANTS
   Root = "r"
   Depths = {0, 2}
   MaxImports = 2
+  AliasSet = {""}
   FaultKinds = {}
 CHECK_DEADLOCK FALSE
